@@ -95,6 +95,7 @@ fixed("FX-list-functions-real-piece-complex-gradient", ["C05"], "63be247", "conc
 fixed("FX-deepcopy-of-tracer", ["C15"], "ce746a7", "copy.deepcopy of a traced value (or of a container holding traced values) duplicated the recorded graph: everything computed from the copy silently lost its derivative (reverse mode)", {"kind": "protocol", "prog": "deepcopy_and_original", "mode": "rev"})
 fixed("FX-jvp-writes-tangent-into-out-buffer", ["C02", "C06"], "e5d0bff", "forward mode with out=<buffer> on a function whose JVP is \"same\" / def_linear (multiply, negative, sum, cumsum, dot, outer, ...): the tangent was written into the buffer holding the primal result; value and derivative silently wrong", dict(case("multiply", [A(3), A(3) * 0.7 + 0.2], argnum=0, tags=["out_buffer"]), fresh_out=[[3], "float64"]), witness_mode="fwd")
 fixed("FX-power-exponent-zero-second-order", ["C07"], "04afaff", "x**y differentiated jointly in (x, y) at y exactly 0: the VJP/JVP w.r.t. x replaced the exponent by a constant there, so mixed second derivatives were wrong and reverse-over-reverse, forward-over-reverse and the FD of the gradient disagreed", dict(case("power", [onp.array([0.7, 1.3, 2.1]), 0.0], argnum=0, tags=["special_scalar"]), joint=[0, 1]))
+fixed("FX-grad-named-bound-method", ["C16"], "2d3ebd6", "grad_named(obj.method, name) (also class methods and callable objects) counted the implicit first parameter: the gradient was silently taken with respect to the FOLLOWING argument (IndexError for the last one)", {"kind": "map", "P": {"A": {"__nd__": "f", "dtype": "float64", "shape": [1, 1], "v": ["-0x1.47481ae1d7d70p+0"]}, "B": {"__nd__": "f", "dtype": "float64", "shape": [1], "v": ["0x1.49621fe60918bp-5"]}, "C": {"__nd__": "f", "dtype": "float64", "shape": [1], "v": ["-0x1.31b217c745700p-3"]}, "in": [1], "out": [1]}, "x": {"__nd__": "f", "dtype": "float64", "shape": [1], "v": ["-0x1.c4565b81de60cp-1"]}, "xkind": "array", "a": 1.0011082209541926, "b": 0.057087305600629024, "scale": 1.4627881084273395, "argform": "unary", "vseed": 607542720})
 fixed("FX-where-jvp-broadcast", ["C05", "C02"], "423a953", "forward-mode np.where returned a tangent with the branch's shape/kind instead of the output's", case("where", [cc, A(3), A(2, 2, 3)], argnum=1), witness_mode="fwd")
 
 out = {"_comment": "Known findings: genuine defects of HIPS/autograd that are recorded rather than repaired (status open) and defects repaired by a 'fix:' commit (status fixed; fixed entries suppress nothing - their witnesses are re-run on every check and a failing one is an ordinary VIOLATION). `match` is a conjunction over fields of the case signature (lists = any of; {__re__}: regex; {__has__}: list membership); never a seed, hash or random value. Read-only at run time.", "findings": F}
